@@ -309,6 +309,22 @@ def init_bounded(sess: Session):
     if bad:
         sess.violation_direct('wn.morphy.Morphy.__init__:invariant', 'class invariant not established',
                               {'witness': repr(bad[0])[:1500]}, True, functions=('wn.morphy.Morphy.__init__',))
+    # every part of speech a WN-LMF document may give a word (partOfSpeech of the DTDs: n v a r s t c p x u): the
+    # constructor accepts the wordnet and records the word under that part of speech
+    bad_pos = []
+    for pos in 'nvarstcpxu':
+        try:
+            m = M.Morphy(W([(pos, ['w', 'ws'])]))
+            if 'w' not in m._all_lemmas.get(pos, ()) or m._exceptions.get(pos, {}).get('ws') != {'w'}:
+                bad_pos.append({'pos': pos, 'lemmas': m._all_lemmas.get(pos), 'exceptions': m._exceptions.get(pos)})
+        except Exception as exc_:   # noqa: BLE001
+            bad_pos.append({'pos': pos, 'error': repr(exc_)})
+    sess.add_bounded('wn.morphy.Morphy.__init__ (parts of speech)', 'one word with a further form for each of the 10 '
+                     'parts of speech of the WN-LMF DTDs', 10, 'native execution', not bad_pos)
+    if bad_pos:
+        sess.violation_direct('wn.morphy.Morphy.__init__:parts-of-speech', 'a wordnet with a word of a documented part '
+                              'of speech is refused or the word is not recorded under it',
+                              {'witness': bad_pos[:4]}, True, functions=('wn.morphy.Morphy.__init__',))
     u = M.Morphy()
     ok = (not u._initialized) and all(not v for v in u._all_lemmas.values())
     sess.add_bounded('wn.morphy.Morphy.__init__ (no wordnet)', 'one case', 1, 'execution', ok)
@@ -386,7 +402,16 @@ def call_bounded(sess: Session):
     inventory = [(p, [F(x, script='Latn') if (k + n) % 2 else F(x) for k, x in enumerate(fs)] if F is not str else fs)
                  for n, (p, fs) in enumerate(inventory)]
     inventory[0] = ('n', [F('glass', id='f1', script='Latn')] if F is not str else ['glass'])
-    ini = M.Morphy(W(inventory))
+    try:
+        ini = M.Morphy(W(inventory))
+    except Exception as exc_:   # noqa: BLE001 - the real constructor refuses a wordnet with words of every documented part of speech
+        sess.add_bounded('wn.morphy.Morphy.__call__', 'initialisation on the inventory (words of parts of speech n, v, a, '
+                         's, c, p)', 1, 'native execution', False)
+        sess.violation_direct('wn.morphy.Morphy.__init__:no-raise', 'Morphy(wordnet) raises for a wordnet whose words '
+                              f'have the parts of speech {sorted({p for p, _ in inventory})}: {exc_!r}',
+                              {'witness': repr(exc_), 'parts of speech': sorted({p for p, _ in inventory})}, True,
+                              functions=('wn.morphy.Morphy.__init__',))
+        return
     lemmas, exc = {}, {}
     for p, fs in inventory:
         # the reference works on plain strings (its look-ups must not go through Form.__hash__ / __eq__)
